@@ -302,8 +302,8 @@ def f64Key (bits : Nat) : Bytes :=
   if F64.signBit bits then beN 8 (9223372036854775807 - bits % 9223372036854775808)
   else beN 8 (9223372036854775808 + bits % 9223372036854775808)
 
-/-- `depth + 1` on a u8 with overflow checks -/
-def incDepth (d : Nat) : Res Nat := if d + 1 ≤ 255 then .ok (d + 1) else .panic "attempt to add with overflow"
+/-- `depth.saturating_add(1)` on a u8 (after the `fix:` commit; it used to be `depth + 1`) -/
+def incDepth (d : Nat) : Res Nat := .ok (if d + 1 ≤ 255 then d + 1 else 255)
 
 mutual
 /-- `scalar_convert_to_comparable(depth, jentry, value, buf)` → appended bytes -/
